@@ -128,7 +128,8 @@ JoinCols(cols, i) == IF i > Len(cols) THEN "" ELSE (IF i > 1 THEN ", " ELSE "") 
 Cols == CASE kind \in {"modes", "zipmodes"} -> <<"name", "mode">> \o BoolCols
           [] kind = "paths" -> <<"path", "name", "ext", "dir", "abspath", "absdir", "is_hidden", "is_empty">>
           [] kind = "extclass" -> <<"name">> \o Classes
-          [] kind = "content" -> <<"name", "line_count", "is_shebang", "sha1", "sha256", "sha512", "sha3", "contains('a')", "contains('#!')", "size">>
+          [] kind = "content" -> <<"name", "line_count", "is_shebang", "sha1", "sha256", "sha512", "sha3", "contains('a')", "contains('#!')", "size",
+                                 "contains('a\n')", "contains('')">>       \* (a needle that spans a line break; the empty needle)
           [] kind = "osattrs" -> <<"name", "size", "uid", "gid", "user", "group", "inode", "hardlinks", "blocks", "modified", "has_xattrs", "caps">>
 OverrideCfg == [debug |-> FALSE, is_image |-> <<".foo">>, is_archive |-> <<".zipx", ".gz">>]
 Scenario == [prop |-> "C04", kind |-> kind, class |-> kind \o (IF variant = "" THEN "" ELSE "/" \o variant),
